@@ -33,7 +33,11 @@ bytes = requested key, ed25519-dalek verify_strict); the deviating design Lenien
 complete authentic packet of k *itself* may be taken for k is left open (weak reading: `judge` =
 false in the table; the result is still judged).  Seeded changes of the coordinator:
 seeded/_incoming/C32/patch.diff (lenient from_relay_payload) => VIOLATION
-kind=relay_payload_not_bound_to_key (k2-signed complete packet accepted for k1).
+kind=relay_payload_not_bound_to_key (k2-signed complete packet accepted for k1);
+seeded/_incoming/C32/patch2.diff (relative name by string slicing) => VIOLATION kind=panic_on_inspect
+(all_txt_records / Display: "attempt to subtract with overflow") on every accepted packet whose
+payload class is px — px is concretised as a record at the apex of its zone (name "@"), so this
+does not depend on the random TXT pass.  Unchanged tree: exit 0, no KNOWN-FINDING line.
 
 Growth: specs/dns/PkarrOrder.tla models `more_recent_than` (the order behind "keep the newest packet"):
 TLC checks it is a strict total order on (timestamp, payload) and the answer for every ordered pair
